@@ -1462,3 +1462,115 @@ def rule_prefill(ctx):
                             'entries below it read as index 0 and segments are attributed to another file / name' % (name, sentinel))
     r.check_floor()
     return r
+
+
+def rule_combine_when_inner(ctx):
+    """SourceMapSource composes with its inner map whenever it has one"""
+    f = ctx.facts()
+    r = RuleResult('COMBINE-WHEN-INNER', 'a SourceMapSource that was given an inner source map streams (and therefore maps) through the '
+                                         'combinator: the branch that chooses between the combined and the plain streaming tests the '
+                                         'presence of `inner_source_map` itself, not a filtered or otherwise derived option')
+    r.floor = 1
+    adt = anchors.adt_by_name(f, 'SourceMapSource')
+    inner_fields = [fl['name'] for fl in anchors.fields(adt) if 'Option<' in fl['ty'] and 'SourceMap' in fl['ty']]
+    if len(inner_fields) != 1:
+        raise anchors.AnchorMissing('SourceMapSource: Option<SourceMap> field: %s' % inner_fields)
+    fld = inner_fields[0]
+    st = anchors.trait_path(f, 'StreamChunks')
+    src = anchors.trait_path(f, 'Source')
+    bodies = [b for b in f.body_list if b.promoted is None and b.d['kind'] != 'Closure' and b.d.get('impl_adt') == adt['path']
+              and ((b.d.get('impl_trait') == st and b.name == 'stream_chunks') or (b.d.get('impl_trait') == src and b.name == 'map'))]
+    PASS = {'as_ref', 'as_deref', 'deref', 'borrow', 'as_mut', 'is_some', 'is_none', 'clone'}
+    for b in bodies:
+        for bi in range(len(b.blocks)):
+            t = b.term(bi)
+            if t['k'] != 'switch':
+                continue
+            e = b.expr_of_operand(t['d'])
+            if not any(x[0] == 'field' and x[2] == fld and x[3] == adt['path'] for x in walk(e)):
+                continue
+            bad = [x[1].rsplit('::', 1)[-1] for x in walk(e) if x[0] == 'call' and x[1].rsplit('::', 1)[-1] not in PASS]
+            ok = not bad
+            r.site('%s: the dispatch tests `%s` itself' % (b.path, fld), t.get('s') or b.span(), 'ok' if ok else 'violation')
+            if not ok:
+                r.violation('%s:%s' % (b.path, fld), t.get('s') or b.span(), b.path,
+                            'the choice between combined and plain streaming depends on `%s` after %s: a source that was given an inner '
+                            'map is treated as if it had none under some condition (its segments are then neither re-attributed nor '
+                            'removed, and the supplied original source is not reported)' % (fld, ', '.join('`%s`' % x for x in bad)))
+    r.check_floor()
+    return r
+
+
+def rule_collector_sibling(ctx):
+    """the two map collectors fill sources / sourcesContent / names the same way"""
+    f = ctx.facts()
+    r = RuleResult('COLLECTOR-SIBLING', 'the map collectors (map() via get_map, and the cache-filling tee) store what a child announces in the '
+                                        'same shape: each table (file names, contents, names) is touched under the same condition (content '
+                                        'only when the child supplied one) and always at the announced index — otherwise the cached map and '
+                                        'map() of the same source disagree on sources / sourcesContent')
+    r.floor = 3
+    cols = []
+    for b in f.body_list:
+        if b.promoted is not None or b.d['kind'] == 'Closure':
+            continue
+        inner = [m for m in group_of(f, b) if m.d['kind'] == 'Closure' and closure_kind(m)]
+        if len({closure_kind(m) for m in inner}) == 3 and \
+                any((t.get('callee') or {}).get('name') == 'encode' for m in inner for _, t in m.calls()):
+            cols.append((b, inner))
+    if len(cols) < 2:
+        raise anchors.AnchorMissing('expected two map collectors (three callbacks + a mappings encoder), found %d' % len(cols))
+    desc = {}
+    for b, inner in cols:
+        for m in inner:
+            kind = closure_kind(m)
+            if kind not in ('source', 'name'):
+                continue
+            # blocks under the Some edge of a test of an Option parameter (the content)
+            some_blocks = set()
+            for bi in range(len(m.blocks)):
+                t = m.term(bi)
+                if t['k'] != 'switch' or t['d']['k'] not in ('copy', 'move') or t['d']['p']['pr']:
+                    continue
+                dd = m.whole_defs(t['d']['p']['l'])
+                if len(dd) == 1 and dd[0][1] == 'assign' and dd[0][2]['r']['k'] == 'discr':
+                    e = m.expr_of_operand({'k': 'copy', 'p': dd[0][2]['r']['p']})
+                    if any(x[0] == 'arg' and x[3] == m.key and 'Option<' in m.local_ty(x[1]) for x in walk(e)):
+                        for v, tb in t['targets']:
+                            if v == 1:
+                                some_blocks |= {x for x in range(len(m.blocks)) if x == tb or tb in m.dom().get(x, set())}
+            ups = m.d.get('upvars') or []
+            for pt, t in m.calls():
+                c = t.get('callee')
+                if not c or not t['args']:
+                    continue
+                # which captured string table does this call take mutably?
+                tables = set()
+                for a in t['args']:
+                    if a['k'] in ('copy', 'move'):
+                        ty = m.local_ty(a['p']['l']) if not a['p']['pr'] else (a['p'].get('ty') or '')
+                        if ty.startswith('&mut') and 'Vec<std::string::String>' in ty:
+                            e = m.expr_of_operand(a)
+                            for x in walk(e):
+                                if x[0] == 'upvar' and len(x) > 2:
+                                    tables.add(x[2])
+                if not tables:
+                    continue
+                uses_index = any(any(x[0] == 'arg' and x[3] == m.key and x[1] == 2 for x in walk(m.expr_of_operand(a))) for a in t['args'])
+                carries_value = any(any(x[0] == 'arg' and x[3] == m.key and x[1] >= 3 for x in walk(m.expr_of_operand(a))) for a in t['args'])
+                for tb_ in tables:
+                    d_ = desc.setdefault((kind, tb_), {}).setdefault(b.path, set())
+                    d_.add(('under-some' if pt[0] in some_blocks else 'always'))
+                    if carries_value and not uses_index:
+                        d_.add('value stored without the announced index')
+    for (kind, table), per in sorted(desc.items()):
+        vals = list(per.values())
+        ok = len(per) == len(cols) and all(v == vals[0] for v in vals)
+        r.site('%s callback, table `%s`: same store shape in every collector %s' % (kind, table, sorted(vals[0])), cols[0][0].span(),
+               'ok' if ok else 'violation')
+        if not ok:
+            r.violation('%s:%s' % (kind, table), cols[0][0].span(), cols[0][0].path,
+                        'the collectors treat the `%s` table differently in their %s callback (%s): the cached map and map() of the same '
+                        'source then differ in sources / sourcesContent (padding with "" where no content was supplied, or content stored '
+                        'in the wrong slot)' % (table, kind, '; '.join('%s: %s' % (k.rsplit('::', 1)[-1], sorted(v)) for k, v in sorted(per.items()))))
+    r.check_floor()
+    return r
